@@ -324,6 +324,19 @@ class Report:
         return rc
 
 
+def private(rep, obj, name, what):
+    """a PRIVATE helper of the package (leading underscore) that a stream looks at directly: such names are not part
+    of any property, a clean-up may rename them.  Returns the attribute, or None after noting that the stream
+    `what` is skipped / falls back (never a violation by itself: the public behaviour is checked elsewhere)."""
+    f = getattr(obj, name, None)
+    if f is None:
+        msg = 'private helper %s.%s no longer exists (renamed?): %s' % (getattr(obj, '__name__', type(obj).__name__), name, what)
+        if msg not in rep.notes:
+            rep.notes.append(msg)
+        rep.hist('private-helper-missing', name)
+    return f
+
+
 def lean_imports(module, seen=None):
     """transitive closure of the project-local imports of a Lean module (names like 'Gen.BmkR')"""
     seen = set() if seen is None else seen
